@@ -259,6 +259,35 @@ def check_siblings(ctx, case):
                                   {**info, "out": out, "finding_tags": ["F18"] if exp18 is not None and got == exp18 else []})
 
 
+def check_owner_text(ctx):
+    """Character data of the OWNING element next to wildcard content: before the first captured child, between
+    children (their tails) and after the last one.  A list wildcard and a mixed wildcard keep it, in order; whatever
+    the field keeps must come back in the same order (both writers, both handlers)."""
+    bodies = ["lead<a>x</a>", "lead<a>x</a>mid<b/>end", '<a k="v">x<b>y</b>z</a>mid<c/>', "lead<a/><b/>", "<a/>tail", "lead"]
+    xctx = XmlContext()
+    for body in bodies:
+        text = f"<R>{body}</R>"
+        want = infoset.canon(infoset.parse(text), strip_ws_between_children=False)["content"]
+        for placement in ("list", "mixed"):
+            for h in ("native", "lxml"):
+                st, obj, _w = hb.parse(text, h, xctx, PLACEMENTS[placement], "str", ParserConfig())
+                info = {"text": text, "handler": h, "placement": placement}
+                if st != "ok":
+                    ctx.case(("owner-text", body, placement, h))
+                    ctx.violation(f"owner text next to wildcard content ({placement}, {h}): {type(obj).__name__}: {obj}", info)
+                    continue
+                for w in ("native", "lxml"):
+                    ctx.case(("owner-text", body, placement, h, w))
+                    try:
+                        out = rb.render(obj, xctx, w)
+                        got = infoset.canon(infoset.parse(out), strip_ws_between_children=False)["content"]
+                    except Exception as ex:  # noqa: BLE001
+                        ctx.violation(f"owner text next to wildcard content ({placement}, {h}): writing the parsed object failed ({w}): {type(ex).__name__}: {ex}", {**info, "obj": repr(obj)[:600]})
+                        continue
+                    if got != want:
+                        ctx.violation(f"owner text next to wildcard content ({placement}, {h} handler, {w} writer): {body!r} came back as {out}", {**info, "out": out, "obj": repr(obj)[:600]})
+
+
 def check_two_wildcards(ctx):
     """Two namespace-restricted wildcards in one model (##targetNamespace and ##other): every captured element
     lands in the field whose namespace rule admits it - also when its LOCAL name was seen before in the other
@@ -336,6 +365,7 @@ def run(ctx):
         ctx.sample({"source_tree": c["src"], "as_text": tree_text(c["src"]), "reference": c["ref"]})
     ctx.extra["trees_replayed"] = len(cases)
     check_two_wildcards(ctx)
+    check_owner_text(ctx)
     xsi_primitives(ctx)
     xsi_text(ctx)
 
